@@ -3,7 +3,7 @@
    for OBJECT IDENTIFIER and RELATIVE-OID, totality (fuel), description of
    get_single_arc on arbitrary (over-long) subidentifiers, dotted-text round trip. *)
 From Coq Require Import ZArith List Lia Bool ZifyBool.
-From A1 Require Import Base.Bytes Leaf.IntegerConv Leaf.StrtoxProofs Leaf.Oid.
+From A1 Require Import Base.Bytes Leaf.IntegerConv Leaf.StrtoxProofs Leaf.Decimal Leaf.DecimalProofs Leaf.Oid.
 Import ListNotations.
 Local Open Scope Z_scope.
 
@@ -471,3 +471,267 @@ Proof.
   rewrite Z.mul_mod_idemp_l by exact H32.
   rewrite Z.add_mod_idemp_l by exact H32. reflexivity.
 Qed.
+
+(* ------------------------------------------------------------------ *)
+(* Dotted text.  [dotted dss] joins numerals with '.'; the theorem is stated for
+   any non-empty digit strings (leading zeros allowed) whose numeral fits an
+   arc, with optional white space before and after; the printed decimal form of
+   an arc vector is the instance dss = map dec_digits arcs. *)
+Fixpoint dotted (dss : list (list Z)) : list Z :=
+  match dss with
+  | [] => []
+  | ds :: tl => match tl with [] => ds | _ => ds ++ 46 :: dotted tl end
+  end.
+
+Definition numeral_ok (ds : list Z) : Prop := ds <> [] /\ digits_ok ds /\ num ds <= arc_max.
+Definition ws_ok (ws : list Z) : Prop := Forall (fun c => is_ws c = true) ws.
+
+Lemma skipn_app_exact {A} (l r : list A) : skipn (length l) (l ++ r) = r.
+Proof. induction l; cbn [length skipn app]; auto. Qed.
+
+Lemma ws_not_digit c : is_ws c = true -> is_digit c = false.
+Proof. unfold is_ws, is_digit. lia. Qed.
+
+Lemma digit_class c : is_digit c = true -> is_ws c = false /\ (c =? 46) = false.
+Proof. unfold is_ws, is_digit. lia. Qed.
+
+Lemma parse_loop_S k cs st pos racc :
+  parse_loop (S k) cs st pos racc =
+  match cs with
+  | [] => parse_finish st pos racc
+  | c :: tl =>
+      if is_ws c then
+        match st with
+        | LeadSpace | TailSpace => parse_loop k tl st (pos + 1) racc
+        | AfterValue => parse_loop k tl TailSpace (pos + 1) racc
+        | WaitDigits => parse_finish WaitDigits pos racc
+        end
+      else if c =? 46 then
+        match st with
+        | AfterValue => parse_loop k tl WaitDigits (pos + 1) racc
+        | _ => PEinval pos
+        end
+      else if is_digit c then
+        match st with
+        | TailSpace | AfterValue => PEinval pos
+        | LeadSpace | WaitDigits =>
+            match strtoul_lim cs with
+            | (SOk, p, value) | (SExtra, p, value) =>
+                if value <=? arc_max
+                then parse_loop k (skipn (Z.to_nat p) cs) AfterValue (pos + p) (value :: racc)
+                else PErange pos
+            | (SRange, _, _) => PErange pos
+            | (_, _, _) => PEinval pos
+            end
+        end
+      else parse_finish WaitDigits pos racc
+  end.
+Proof. reflexivity. Qed.
+
+(* trailing white space after a value *)
+Lemma parse_tail ws : forall fuel st pos racc, ws_ok ws ->
+  st = AfterValue \/ st = TailSpace -> (length ws < fuel)%nat ->
+  parse_loop fuel ws st pos racc = POk (rev racc) (pos + zlen ws).
+Proof.
+  induction ws as [|c ws IH]; intros fuel st pos racc Hws Hst Hf;
+    (destruct fuel as [|k]; [lia|]); rewrite parse_loop_S.
+  - unfold zlen; cbn [length Z.of_nat]. rewrite Z.add_0_r.
+    destruct Hst; subst; reflexivity.
+  - inversion Hws as [|? ? Hc Hws']; subst. rewrite Hc. cbn [length] in Hf.
+    rewrite zlen_cons.
+    destruct Hst; subst; (rewrite IH by (auto; lia)); f_equal; lia.
+Qed.
+
+(* leading white space *)
+Lemma parse_lead ws : forall fuel cs pos racc, ws_ok ws ->
+  parse_loop (length ws + fuel) (ws ++ cs) LeadSpace pos racc
+  = parse_loop fuel cs LeadSpace (pos + zlen ws) racc.
+Proof.
+  induction ws as [|c ws IH]; intros fuel cs pos racc Hws.
+  - cbn [length app Nat.add]. unfold zlen; cbn [length Z.of_nat]. rewrite Z.add_0_r. reflexivity.
+  - inversion Hws as [|? ? Hc Hws']; subst. cbn [length app Nat.add].
+    rewrite parse_loop_S, Hc, IH by assumption. rewrite zlen_cons. f_equal. lia.
+Qed.
+
+(* one numeral followed by a non-digit or the end: _OID_CAPTURE_ARC *)
+Lemma parse_capture k ds rest st pos racc :
+  numeral_ok ds -> stops rest -> st = LeadSpace \/ st = WaitDigits ->
+  parse_loop (S k) (ds ++ rest) st pos racc
+  = parse_loop k rest AfterValue (pos + zlen ds) (num ds :: racc).
+Proof.
+  intros (Hne & Hd & Hmax) Hstop Hst.
+  pose proof (strtoul_exact false ds rest Hne Hd Hstop) as H. cbn zeta in H. cbn [app] in H.
+  destruct (num ds <? two64) eqn:E; [|unfold arc_max, two32, two64 in *; lia].
+  destruct ds as [|c ds']; [congruence|].
+  inversion Hd as [|? ? Hc Hd']; subst. destruct (digit_class c Hc) as [Hw H46].
+  rewrite parse_loop_S. cbn [app]. rewrite Hw, H46, Hc.
+  change (c :: ds' ++ rest) with ((c :: ds') ++ rest). rewrite H.
+  assert (Hskip : skipn (Z.to_nat (zlen (c :: ds'))) ((c :: ds') ++ rest) = rest).
+  { unfold zlen. rewrite Nat2Z.id. apply skipn_app_exact. }
+  destruct (num (c :: ds') <=? arc_max) eqn:E2; [|lia].
+  destruct Hst; subst; destruct rest; rewrite Hskip; reflexivity.
+Qed.
+
+Lemma dotted_cons2 ds ds2 tl : dotted (ds :: ds2 :: tl) = ds ++ 46 :: dotted (ds2 :: tl).
+Proof. reflexivity. Qed.
+
+Lemma numeral_length ds : numeral_ok ds -> (1 <= length ds)%nat.
+Proof. intros (Hne & _). destruct ds; [congruence|simpl; lia]. Qed.
+
+Lemma parse_dotted_loop dss : forall fuel st pos racc ws,
+  dss <> [] -> Forall numeral_ok dss -> ws_ok ws ->
+  st = LeadSpace \/ st = WaitDigits ->
+  (length (dotted dss ++ ws) < fuel)%nat ->
+  parse_loop fuel (dotted dss ++ ws) st pos racc
+  = POk (rev racc ++ map num dss) (pos + zlen (dotted dss ++ ws)).
+Proof.
+  induction dss as [|ds tl IH]; intros fuel st pos racc ws Hne Hall Hws Hst Hf; [congruence|].
+  inversion Hall as [|? ? Hds Htl]; subst.
+  pose proof (numeral_length ds Hds) as Hl1.
+  destruct fuel as [|k]; [lia|].
+  destruct tl as [|ds2 tl'].
+  - (* last numeral, then optional white space *)
+    cbn [dotted] in *.
+    assert (Hstop : stops ws).
+    { destruct ws as [|c ws']; [exact I|]. inversion Hws; subst. cbn [stops]. apply ws_not_digit. assumption. }
+    rewrite parse_capture by assumption.
+    rewrite app_length in Hf.
+    rewrite parse_tail by (auto; lia).
+    cbn [rev map]. rewrite zlen_app. f_equal. lia.
+  - rewrite dotted_cons2 in *. rewrite <- app_assoc in *. cbn [app] in *.
+    assert (Hstop : stops (46 :: dotted (ds2 :: tl') ++ ws)) by reflexivity.
+    rewrite parse_capture by assumption.
+    rewrite app_length in Hf. cbn [length] in Hf.
+    destruct k as [|k']; [lia|].
+    rewrite parse_loop_S.
+    change (is_ws 46) with false. change (46 =? 46) with true. cbv iota.
+    rewrite IH; [|discriminate|assumption|assumption|right; reflexivity|lia].
+    cbn [rev map]. rewrite <- app_assoc. cbn [app].
+    rewrite !zlen_app, !zlen_cons. f_equal. rewrite zlen_app. lia.
+Qed.
+
+Theorem oid_text_roundtrip_ws dss ws1 ws2 :
+  dss <> [] -> Forall numeral_ok dss -> ws_ok ws1 -> ws_ok ws2 ->
+  parse_arcs (ws1 ++ dotted dss ++ ws2)
+  = POk (map num dss) (zlen (ws1 ++ dotted dss ++ ws2)).
+Proof.
+  intros Hne Hall H1 H2. unfold parse_arcs.
+  rewrite app_length.
+  replace (S (length ws1 + length (dotted dss ++ ws2)))
+    with (length ws1 + S (length (dotted dss ++ ws2)))%nat by lia.
+  rewrite parse_lead by assumption.
+  rewrite parse_dotted_loop; [|assumption|assumption|assumption|left; reflexivity|lia].
+  cbn [rev app]. rewrite (zlen_app ws1). f_equal.
+Qed.
+
+(* the printed dotted-decimal form of an arc vector *)
+Definition oid_text (arcs : list Z) : list Z := dotted (map dec_digits arcs).
+
+Lemma dec_digits_numeral a : arc_ok a -> numeral_ok (dec_digits a) /\ num (dec_digits a) = a.
+Proof.
+  intros Ha. unfold arc_ok, two32 in Ha.
+  assert (H20 : 0 <= a < 10 ^ 20) by (change (10 ^ 20) with 100000000000000000000; lia).
+  destruct (dec_digits_spec a H20) as (Hok & Hne & Hnum & _).
+  split; [|exact Hnum]. split; [exact Hne|]. split; [exact Hok|].
+  rewrite Hnum. unfold arc_max, two32. lia.
+Qed.
+
+Theorem oid_text_roundtrip arcs : arcs <> [] -> Forall arc_ok arcs ->
+  parse_arcs (oid_text arcs) = POk arcs (zlen (oid_text arcs)).
+Proof.
+  intros Hne Ha. unfold oid_text.
+  pose proof (oid_text_roundtrip_ws (map dec_digits arcs) [] []) as H.
+  cbn [app] in H. rewrite app_nil_r in H. rewrite H.
+  - f_equal. rewrite map_map. rewrite <- (map_id arcs) at 2.
+    apply map_ext_in. intros a Hin. rewrite Forall_forall in Ha.
+    apply (dec_digits_numeral a (Ha a Hin)).
+  - destruct arcs; [congruence|discriminate].
+  - rewrite Forall_forall in *. intros ds Hin. apply in_map_iff in Hin.
+    destruct Hin as (a & <- & Hin). apply (dec_digits_numeral a (Ha a Hin)).
+  - constructor.
+  - constructor.
+Qed.
+
+(* Totality of the text machine: the fuel handed out by parse_arcs suffices
+   for every input *)
+Lemma strtox_loop_pos upper ldm neg cs : forall value pos st p v,
+  strtox_loop upper ldm neg cs value pos = (st, p, v) -> pos <= p.
+Proof.
+  induction cs as [|c tl IH]; intros value pos st p v H; cbn [strtox_loop] in H.
+  - inversion H; lia.
+  - destruct (is_digit c).
+    + destruct (value <? upper).
+      * apply IH in H. lia.
+      * destruct (value =? upper).
+        -- destruct (c - 48 <=? ldm).
+           ++ destruct tl as [|c' tl']; [inversion H; lia|].
+              destruct (is_digit c'); inversion H; lia.
+           ++ inversion H; lia.
+        -- inversion H; lia.
+    + inversion H; lia.
+Qed.
+
+Lemma strtoul_digit_pos c tl st p v :
+  is_digit c = true -> strtoul_lim (c :: tl) = (st, p, v) -> st = SOk \/ st = SExtra -> 1 <= p.
+Proof.
+  intros Hc H Hst. unfold strtoul_lim, strtoumax_lim in H.
+  destruct (first_digit_not_sign c Hc) as [H45 H43].
+  destruct (c =? 45) eqn:E45; [lia|]. destruct (c =? 43) eqn:E43; [lia|].
+  unfold strtoumax_loop in H.
+  destruct (strtox_loop ((two64 - 1) / 10) ((two64 - 1) mod 10) false (c :: tl) 0 0)
+    as [[st' p'] v'] eqn:EL.
+  assert (Hp : 1 <= p' \/ st' = SRange).
+  { cbn [strtox_loop] in EL. rewrite Hc in EL.
+    change (0 <? (two64 - 1) / 10) with true in EL. cbv iota in EL.
+    apply strtox_loop_pos in EL. lia. }
+  destruct st'; try (inversion H; subst; destruct Hst; congruence);
+    destruct (v' <=? two64 - 1); inversion H; subst; destruct Hp; try lia; try congruence;
+    destruct Hst; congruence.
+Qed.
+
+Lemma parse_loop_total fuel : forall cs st pos racc,
+  (length cs < fuel)%nat -> parse_loop fuel cs st pos racc <> PFuel.
+Proof.
+  induction fuel as [|k IH]; intros cs st pos racc Hf; [lia|].
+  rewrite parse_loop_S. destruct cs as [|c tl].
+  - destruct st; discriminate.
+  - cbn [length] in Hf.
+    destruct (is_ws c).
+    { destruct st; try (apply IH; lia); discriminate. }
+    destruct (c =? 46).
+    { destruct st; try (apply IH; lia); discriminate. }
+    destruct (is_digit c) eqn:Hc; [|discriminate].
+    destruct st; try discriminate;
+      (destruct (strtoul_lim (c :: tl)) as [[s p] v] eqn:ES;
+       destruct s; try discriminate;
+       (destruct (v <=? arc_max); [|discriminate]);
+       (assert (Hp : 1 <= p) by (eapply strtoul_digit_pos; eauto));
+       apply IH;
+       rewrite skipn_length; cbn [length]; lia).
+Qed.
+
+Theorem parse_arcs_total cs : parse_arcs cs <> PFuel.
+Proof. unfold parse_arcs. apply parse_loop_total. lia. Qed.
+
+Theorem oid_total bs :
+  (get_arcs bs <> OFuel /\ reloid_get_arcs bs <> OFuel) /\ parse_arcs bs <> PFuel.
+Proof. split; [apply get_arcs_total|apply parse_arcs_total]. Qed.
+
+(* non-vacuity: concrete instances of the hypotheses and of the conclusions *)
+Example oid_example_rsadsi :
+  set_arcs [1; 2; 840; 113549] = SetOk [42; 134; 72; 134; 247; 13] /\
+  get_arcs [42; 134; 72; 134; 247; 13] = OArcs [1; 2; 840; 113549].
+Proof. vm_compute. split; reflexivity. Qed.
+
+Example oid_example_max_first_pair :
+  valid_first_pair 2 (arc_max - 80) /\
+  set_arcs [2; arc_max - 80; arc_max] = SetOk [143; 255; 255; 255; 127; 143; 255; 255; 255; 127].
+Proof. split; [right; unfold arc_max, two32; lia|vm_compute; reflexivity]. Qed.
+
+Example oid_example_overlong :
+  get_single_arc [128; 144; 128; 128; 128; 5] = GOk 5 6 [].
+Proof. vm_compute. reflexivity. Qed.
+
+Example oid_example_text :
+  parse_arcs (map Z.of_nat [32; 49; 46; 50; 46; 56; 52; 48; 10]%nat) = POk [1; 2; 840] 9.
+Proof. vm_compute. reflexivity. Qed.
